@@ -47,6 +47,7 @@ class ResolveOuterVars(ast.NodeTransformer):
         from hy.compiler import asty
         scope = node._scope
         defined = set()
+        declared_global = set()
         undefined = list(node.names)  # keep order, so can't use set
         while undefined and scope.parent:
             scope = scope.parent
@@ -55,9 +56,12 @@ class ResolveOuterVars(ast.NodeTransformer):
                 # As in Python, the variables of a class body aren't
                 # visible to the scopes nested in it.
                 if scope.is_fn or isinstance(scope, ScopeGen):
-                    has = scope.defined
+                    # A name that an enclosing function declares global
+                    # means the module's variable in nested scopes, too.
+                    declared_global.update(scope.global_vars.intersection(undefined))
+                    has = scope.defined - declared_global
             elif isinstance(scope, ScopeLet):
-                has = set(scope.bindings.keys())
+                has = set(scope.bindings.keys()) - declared_global
             elif isinstance(scope, ScopeGlobal):
                 res = []
                 if not scope.defined.issuperset(undefined):
@@ -305,6 +309,8 @@ class ScopeFn(ScopeBase):
         "list: of all vars accessedto in this scope"
         self.nonlocal_vars = {}
         "set: of all `nonlocal`'s defined in this scope"
+        self.global_vars = set()
+        "set: of all names declared `global` in this scope"
         self.is_fn = args is not None
         """
         bool: `True` if this scope is being used to track a python
@@ -357,6 +363,7 @@ class ScopeFn(ScopeBase):
             self.nonlocal_vars.update({name: node for name in node.names})
         else:
             self.defined.update(node.names)
+            self.global_vars.update(node.names)
 
         for n in self.seen:
             if n.name in node.names:
